@@ -117,3 +117,14 @@ func VerifC15_RecycleAfterArchetypeMove()    { VerifC04_RecycleAfterArchetypeMov
 func VerifC11_RelSetRelations() { vConcreteValues = true; VerifC04_RelSetRelations() }
 func VerifC11_RelCopy()         { vConcreteValues = true; VerifC01_RelCopy() }
 func VerifC11_RelExchange()     { vConcreteValues = true; VerifC01_RelExchange() }
+
+// C01: mappers created early stay faithful when the registry grows; C02: batch retargeting
+func VerifC01_EarlyMappersAcrossGrowth() { vManyComponents(70) }
+func VerifC02_BatchSetRelations()        { VerifC06_SetRelations() }
+func VerifC10_LockedBatchCreateMatrix()  { VerifC07_LockedBatchCreateMatrix() }
+
+// C04: "a relation target is always the zero entity or an alive entity" — stale and recycled
+// handles offered as targets are rejected (the C10 mode of the relation steps)
+func VerifC04_RejectedRelSetRelations() { VerifC10_RelSetRelations() }
+func VerifC04_RejectedRelAdd()          { VerifC10_RelAdd() }
+func VerifC04_RejectedRelNew()          { VerifC10_RelNew() }
